@@ -33,7 +33,6 @@ def shapes(tier):
             dict(name="bf3-p3+p16", framing="bf3", comps=[comp(3, [(0xC3, 1)]), comp(16, [])]),
             dict(name="bf3-p33tt", framing="bf3", comps=[comp(33, [(0xC1, 1), (0xC8, 3)])]),
             dict(name="bec2-upd-e17", framing="bec2", blocks=["update"], comps=[comp(17, [(0xC2, 1)], enc=True)]),
-            dict(name="bec2-cust+upd-p5", framing="bec2", blocks=["cust", "update"], comps=[comp(5, [])]),
         ]
     return S
 
